@@ -62,7 +62,10 @@ pub fn run(args: &Args) {
     let n_grid = 512;
     for fu in functionals(false) {
         if !["PcSaft/propane", "PcSaft/butane+pentane", "GcPcSaft/butane", "Pets", "FMT(WhiteBear)"].contains(&fu.name.as_str()) { continue; }
-        if !args.thorough && !["PcSaft/propane", "FMT(WhiteBear)", "Pets"].contains(&fu.name.as_str()) { continue; }
+        // quick tier: all systems for three functionals; the binary mixture only with the particle-number specifications (several segments)
+        let quick_full = ["PcSaft/propane", "FMT(WhiteBear)", "Pets"].contains(&fu.name.as_str());
+        if !args.thorough && !quick_full && fu.name != "PcSaft/butane+pentane" { continue; }
+        let systems_wanted = args.thorough || quick_full;
         // ---- systems
         let mut systems: Vec<(String, Box<dyn Fn(&str) -> Option<(DFTProfile<Ix1, F>, Option<PhaseEquilibrium<F, 2>>)>>)> = vec![];
         if fu.name.starts_with("FMT") {
@@ -104,6 +107,7 @@ pub fn run(args: &Args) {
                 })));
             }
         }
+        if !systems_wanted { systems.clear(); }
         for (sname, make) in &systems {
             // reference chain first (default solver), then TLC-generated chains
             let mut chains: Vec<Value> = vec![json!("default")];
@@ -184,6 +188,18 @@ pub fn run(args: &Args) {
                             tr.ev(json!({"ev":"Solve","functional":fu.name,"system":sname,"init":"previous solution","chain":if chain.is_string() { json!([]) } else { chain.clone() },
                                 "default_solver":chain.is_string(),"spec":"Moles","spec_moles":fv(target.iter()),
                                 "spec_total_moles":fs(target.sum()),"ok":ok,"err":err,"obs":observe(&prof, &bulk_before)}));
+                        }
+                        // the total number of particles specified (composition follows the bulk)
+                        for chain in chains.iter().take(if args.thorough { chains.len() } else { 5 }) {
+                            let mut prof = p0.profile.clone();
+                            let total = n0.sum() * factor;
+                            prof.specification = Arc::new(DFTSpecifications::TotalMoles { total_moles: total });
+                            let bulk_before = prof.bulk.clone();
+                            let solver = if chain.is_string() { None } else { Some(solver_of(chain)) };
+                            let r = guarded(std::panic::AssertUnwindSafe(|| prof.solve(solver.as_ref(), false)));
+                            let (ok, err) = match &r { Ok(Ok(())) => (true, String::new()), Ok(Err(e)) => (false, e.to_string()), Err(m) => (false, format!("Panic:{}", m)) };
+                            tr.ev(json!({"ev":"Solve","functional":fu.name,"system":"LJ93 slit pore, total moles specified","init":"previous solution","chain":if chain.is_string() { json!([]) } else { chain.clone() },
+                                "default_solver":chain.is_string(),"spec":"TotalMoles","spec_total_moles":fs(total),"ok":ok,"err":err,"obs":observe(&prof, &bulk_before)}));
                         }
                     }
                 }
